@@ -6,8 +6,9 @@ import Bec2Verif.Lemmas.Bytes
 The theorems are about `bf2_unpack_payload` / `bf2_convert_payload`: for every image, every split into
 data lines (any line sizes, any 64 KiB page crossings) the blob is exactly the image; a non-zero start and
 a forward gap at any position are rejected; BF2-compatible sections are the raw lines in file order.
-The section state machine, the instruction execution and the annotations are tied to the code by
-correspondence (see harness/c13.py) — not theorems yet.
+Memory images with any number of extents are recovered extent by extent.  The section state machine: what `emit` puts
+into a component, ignored sections, the BF3-update marker.  The instruction-to-tag mapping and the annotations are tied
+to the code by correspondence (see harness/c13.py); their totality and well-formedness are C14's theorems.
 -/
 namespace Bec2Verif.Props.C13
 open Bec2Verif Bec2Verif.Bf2 Bec2Verif.Bf3
@@ -197,6 +198,251 @@ theorem blob_gap_rejected (a b : List Line) (imgA imgB : Bytes) (t0 : Nat) (gap 
           omega
         have hne1 : (Gen.BF3FMT_BLOB = Gen.BF3FMT_BF2COMPATIBLE) = False := by decide
         simp only [convertPayload, hne1, if_false, if_true, hunp, bind, Except.bind, throw, throwThe, MonadExceptOf.throw]
+
+/-! ### memory images: any number of extents -/
+
+theorem unpackLoop_append (t0 : Nat) : ∀ (xs ys : List Line) (s s' : UState), unpackLoop t0 xs s = .ok s' →
+    unpackLoop t0 (xs ++ ys) s = unpackLoop t0 ys s' := by
+  intro xs
+  induction xs with
+  | nil => intro ys s s' h; simp [unpackLoop] at h; subst h; rfl
+  | cons x xs ihx =>
+    intro ys s s' h
+    simp only [List.cons_append, unpackLoop] at h ⊢
+    cases hx : unpackStep t0 s x with
+    | error e => simp [hx, bind, Except.bind] at h
+    | ok sx => simp only [hx, bind, Except.bind] at h ⊢; exact ihx ys sx s' h
+
+/-- a line that does not continue the current extent closes it and opens a new one -/
+theorem unpackStep_break (t0 : Nat) (s : UState) (l : Line) (adr : Int) (p : Bytes) (hc : Carries t0 l adr p)
+    (hne : adr ≠ s.endAdr) (hcur : s.cur ≠ []) :
+    unpackStep t0 s l = .ok { blocks := dictSetI s.blocks (s.start.getD 0) s.cur.flatten, start := some adr,
+                              endAdr := adr + p.length, cur := [p] } := by
+  obtain ⟨hlp, hlen⟩ := linePayload_carries t0 l adr p hc
+  have hri : ∃ r, readInt 1 l.tag = .ok (p.length + 2, r) := by
+    cases h : readInt 1 l.tag with
+    | error e => simp [h, Except.map] at hlen
+    | ok v => simp [h, Except.map] at hlen; exact ⟨v.2, by rw [← hlen]⟩
+  obtain ⟨r, hr⟩ := hri
+  have hne' : (adr != s.endAdr) = true := by simpa using hne
+  have hce : s.cur.isEmpty = false := by cases hcc : s.cur <;> simp_all
+  unfold unpackStep
+  simp only [hlp, hr, bind, Except.bind, hne', hce, Bool.not_false, Bool.and_self, if_true, pure, Except.pure,
+    Option.isNone_some, Bool.false_eq_true, if_false]
+  congr 1
+  simp <;> omega
+
+/-- one extent of a memory image: start address, bytes, and the data lines that carry them contiguously -/
+structure Extent (t0 : Nat) where
+  adr : Int
+  img : Bytes
+  lines : List Line
+  nonempty : lines ≠ []
+  contiguous : Contiguous t0 adr lines img
+
+/-- no extent starts where its predecessor (in file order) ended - it would simply continue it -/
+def Separated (t0 : Nat) : Int → List (Extent t0) → Prop
+  | _, [] => True
+  | endA, e :: es => e.adr ≠ endA ∧ Separated t0 (e.adr + e.img.length) es
+
+theorem dictSetI_new (d : List (Int × Bytes)) (k : Int) (v : Bytes) (h : k ∉ d.map Prod.fst) :
+    dictSetI d k v = d ++ [(k, v)] := by
+  unfold dictSetI
+  have : d.any (fun p => p.1 == k) = false := by
+    rw [List.any_eq_false]
+    intro x hx hxk
+    exact h (List.mem_map.mpr ⟨x, hx, by simpa using hxk⟩)
+  simp [this]
+
+/-- processing further extents: every closed extent is recorded once, under its own start address -/
+theorem unpackLoop_extents (t0 : Nat) (es : List (Extent t0)) (s : UState) (st : Int) (hst : s.start = some st)
+    (hcur : s.cur ≠ [])
+    (hsep : Separated t0 s.endAdr es)
+    (hnd : (s.blocks.map Prod.fst ++ st :: es.map (·.adr)).Nodup) :
+    ∃ s', unpackLoop t0 (es.flatMap (·.lines)) s = .ok s' ∧ s'.cur ≠ [] ∧ ∃ st', s'.start = some st' ∧
+      s'.blocks ++ [(st', s'.cur.flatten)] =
+        s.blocks ++ [(st, s.cur.flatten)] ++ es.map (fun e => (e.adr, e.img)) := by
+  induction es generalizing s st with
+  | nil => exact ⟨s, rfl, hcur, st, hst, by simp⟩
+  | cons e es ih =>
+    obtain ⟨hne, hsep'⟩ := hsep
+    obtain ⟨eadr, eimg, elines, enonempty, econt⟩ := e
+    simp only at hne hsep' ⊢
+    cases elines with
+    | nil => exact absurd rfl enonempty
+    | cons l ls =>
+      cases econt with
+      | cons _ _ _ p rest hc hrest =>
+        have himg : p ++ rest = p ++ rest := rfl
+        have hl : (l :: ls) = (l :: ls) := rfl
+        have hstep := unpackStep_break t0 s l eadr p hc hne hcur
+        obtain ⟨s2, hl2, hb2, hf2, he2, _, hcur2, hst2⟩ := unpackLoop_contiguous t0 ls rest
+          { blocks := dictSetI s.blocks (s.start.getD 0) s.cur.flatten, start := some eadr,
+            endAdr := eadr + p.length, cur := [p] } hrest (Or.inl rfl)
+        have hc2 := hcur2 (by simp)
+        simp only [Option.isSome_some, Bool.true_or, if_true] at hst2
+        have hkey : st ∉ s.blocks.map Prod.fst := by
+          have := List.nodup_append.mp hnd
+          intro hmem
+          exact this.2.2 st hmem st (by simp) rfl
+        have hblocks : s2.blocks = s.blocks ++ [(st, s.cur.flatten)] := by
+          rw [hb2, hst]; exact dictSetI_new _ _ _ hkey
+        have hend : s2.endAdr = eadr + ((p ++ rest).length : Int) := by
+          rw [he2]; simp only [List.length_append]; omega
+        have hnd2 : (s2.blocks.map Prod.fst ++ eadr :: es.map (·.adr)).Nodup := by
+          rw [hblocks]
+          simp only [List.map_append, List.map_cons, List.map_nil, List.append_assoc, List.cons_append, List.nil_append]
+          simpa using hnd
+        obtain ⟨s3, hl3, hc3, st3, hst3, hres⟩ := ih s2 eadr hst2 hc2 (by rw [hend]; exact hsep') hnd2
+        refine ⟨s3, ?_, hc3, st3, hst3, ?_⟩
+        · simp only [List.flatMap_cons]
+          have h1 : unpackLoop t0 (l :: ls) s = .ok s2 := by
+            simp only [unpackLoop, hstep, bind, Except.bind, hl2]
+          rw [unpackLoop_append t0 _ _ _ _ h1, hl3]
+        · rw [hres, hblocks, hf2]
+          simp only [List.flatten_cons, List.flatten_nil, List.append_nil, List.map_cons, List.append_assoc,
+            List.cons_append, List.nil_append]
+
+/-- **memory images**: extents with pairwise distinct start addresses, none continuing its predecessor, given in any
+order - every extent is recovered exactly once with exactly its bytes, then emitted sorted by address as
+`address(4) ‖ length(4) ‖ data` -/
+theorem memimage_extents (t0 : Nat) (e0 : Extent t0) (es : List (Extent t0))
+    (ht0 : ∀ l ∈ e0.lines.head?, l.typ = t0)
+    (hsep : Separated t0 (e0.adr + e0.img.length) es)
+    (hnd : (e0.adr :: es.map (·.adr)).Nodup) :
+    unpackPayload (e0.lines ++ es.flatMap (·.lines)) = .ok ((e0.adr, e0.img) :: es.map (fun e => (e.adr, e.img))) ∧
+    convertPayload (e0.lines ++ es.flatMap (·.lines)) Gen.BF3FMT_MEMORYIMAGE =
+      memImage (sortBlocks ((e0.adr, e0.img) :: es.map (fun e => (e.adr, e.img)))) := by
+  have hunp : unpackPayload (e0.lines ++ es.flatMap (·.lines)) =
+      .ok ((e0.adr, e0.img) :: es.map (fun e => (e.adr, e.img))) := by
+    obtain ⟨adr0, img0, lines0, hne0, hcont0⟩ := e0
+    simp only at ht0 hsep hnd ⊢
+    cases lines0 with
+    | nil => exact absurd rfl hne0
+    | cons l0 ls =>
+      have hl0 : l0.typ = t0 := ht0 l0 (by simp)
+      cases hcont0 with
+      | cons _ _ _ p rest hc hrest =>
+        obtain ⟨hlp, hlen⟩ := linePayload_carries t0 l0 adr0 p hc
+        have hri : ∃ r, readInt 1 l0.tag = .ok (p.length + 2, r) := by
+          cases h : readInt 1 l0.tag with
+          | error e => simp [h, Except.map] at hlen
+          | ok v => simp [h, Except.map] at hlen; exact ⟨v.2, by rw [← hlen]⟩
+        obtain ⟨r, hr⟩ := hri
+        have hstep : unpackStep t0 { blocks := [], start := none, endAdr := 0, cur := [] } l0 =
+            .ok { blocks := [], start := some adr0, endAdr := adr0 + p.length, cur := [p] } := by
+          unfold unpackStep
+          simp only [hlp, hr, bind, Except.bind, List.isEmpty_nil, Bool.not_true, Bool.and_false, Bool.false_eq_true,
+            if_false, pure, Except.pure, List.nil_append]
+          congr 1
+          simp <;> omega
+        obtain ⟨s1, hl1, hb1, hf1, he1, _, hcur1, hst1⟩ := unpackLoop_contiguous t0 ls rest
+          { blocks := [], start := some adr0, endAdr := adr0 + p.length, cur := [p] } hrest (Or.inl rfl)
+        have hc1 := hcur1 (by simp)
+        simp only [Option.isSome_some, Bool.true_or, if_true] at hst1
+        have hend : s1.endAdr = adr0 + ((p ++ rest).length : Int) := by
+          rw [he1]; simp only [List.length_append]; omega
+        obtain ⟨s2, hl2, hc2, st2, hst2, hres⟩ := unpackLoop_extents t0 es s1 adr0 hst1 hc1 (by rw [hend]; exact hsep)
+          (by rw [hb1]; simpa using hnd)
+        have hloop : unpackLoop t0 ((l0 :: ls) ++ es.flatMap (·.lines))
+            { blocks := [], start := none, endAdr := 0, cur := [] } = .ok s2 := by
+          have h1 : unpackLoop t0 (l0 :: ls) { blocks := [], start := none, endAdr := 0, cur := [] } = .ok s1 := by
+            simp only [unpackLoop, hstep, bind, Except.bind, hl1]
+          rw [unpackLoop_append t0 _ _ _ _ h1, hl2]
+        have h2e : s2.cur.isEmpty = false := by cases hcc : s2.cur <;> simp_all
+        have hkey2 : st2 ∉ s2.blocks.map Prod.fst := by
+          -- keys of the final list are distinct
+          have hall : ((s2.blocks ++ [(st2, s2.cur.flatten)]).map Prod.fst).Nodup := by
+            rw [hres, hb1, hf1]
+            simp only [List.nil_append, List.flatten_cons, List.flatten_nil, List.append_nil, List.map_append,
+              List.map_cons, List.map_nil, List.map_map, List.cons_append]
+            have : (List.map (Prod.fst ∘ fun e : Extent t0 => (e.adr, e.img)) es) = es.map (·.adr) := by
+              apply List.map_congr_left; intro e _; rfl
+            rw [this]; exact hnd
+          rw [List.map_append, List.nodup_append] at hall
+          intro hmem
+          exact hall.2.2 st2 hmem st2 (by simp) rfl
+        simp only [List.cons_append] at hloop
+        simp only [List.cons_append, unpackPayload, hl0, hloop, bind, Except.bind, pure, Except.pure, h2e,
+          Bool.false_eq_true, if_false, hst2, Option.getD_some]
+        rw [dictSetI_new _ _ _ hkey2, hres, hb1, hf1]
+        simp
+  refine ⟨hunp, ?_⟩
+  have hne1 : (Gen.BF3FMT_MEMORYIMAGE = Gen.BF3FMT_BF2COMPATIBLE) = False := by decide
+  have hne2 : (Gen.BF3FMT_MEMORYIMAGE = Gen.BF3FMT_BLOB) = False := by decide
+  simp only [convertPayload, hne1, hne2, if_false, if_true, hunp, bind, Except.bind]
+
+/-! ### the section state machine -/
+
+/-- **what a section becomes**: when `emit` adds a component, its payload is `bf2_convert_payload` of exactly the
+section's data lines in the format the tag-type map prescribes, its description is what the instructions produce from
+the map's entry, and the section's lines are consumed (each line of a non-ignored section is used once) -/
+theorem emit_component (s s' : IState) (h : emit s = .ok s') (hnew : s'.comps ≠ s.comps) :
+    ∃ l0 ty hw fmt intf d content, s.fwdata.head? = some l0 ∧
+      Gen.BF2_TAGTYPE_MAP.lookup l0.typ = some (some ty, hw, fmt, intf) ∧
+      (execInstrs s.instrs (desc0 ty (fmt.getD 0) hw intf) s.comments).1 = .ok d ∧
+      convertPayload s.fwdata (fmt.getD 0) = .ok content ∧
+      s'.comps = s.comps ++ [mkComp d content none false] ∧ s'.fwdata = [] := by
+  unfold emit at h
+  cases hfw : s.fwdata with
+  | nil => simp [hfw] at h
+  | cons l0 rest =>
+    simp only [hfw] at h
+    cases hmap : Gen.BF2_TAGTYPE_MAP.lookup l0.typ with
+    | none => simp [hmap] at h
+    | some ent =>
+      obtain ⟨oty, hw, fmt, intf⟩ := ent
+      cases oty with
+      | none =>
+        simp only [hmap] at h
+        injection h with h; subst h; exact absurd rfl hnew
+      | some ty =>
+        simp only [hmap] at h
+        cases hex : execInstrs s.instrs (desc0 ty (fmt.getD 0) hw intf) s.comments with
+        | mk r rest2 =>
+          obtain ⟨ins, cm⟩ := rest2
+          cases r with
+          | unsupported =>
+            simp only [hex] at h
+            injection h with h; subst h; exact absurd rfl hnew
+          | error e =>
+            simp only [hex] at h
+            split at h <;> cases h
+          | ok d =>
+            simp only [hex] at h
+            cases hcv : convertPayload (l0 :: rest) (fmt.getD 0) with
+            | error e => simp [hcv, bind, Except.bind] at h
+            | ok content =>
+              simp only [hcv, bind, Except.bind, pure, Except.pure, Except.ok.injEq] at h
+              subst h
+              exact ⟨l0, ty, hw, fmt, intf, d, content, by simp, hmap, by rw [hex], hcv, rfl, rfl⟩
+
+/-- sections whose tag type the map marks as ignored (prepare / activate), and sections whose instructions name an
+unsupported combination, produce no component -/
+theorem emit_ignored (s : IState) (l0 : Line) (rest : List Line) (hw fmt intf : Option Nat) (hfw : s.fwdata = l0 :: rest)
+    (hmap : Gen.BF2_TAGTYPE_MAP.lookup l0.typ = some (none, hw, fmt, intf)) : emit s = .ok s := by
+  unfold emit
+  simp only [hfw, hmap]
+
+/-- **firmware without the BF3-update marker is rejected** when compatibility is enforced -/
+theorem marker_required (s : IState) (r : Comments × List Comp) (h : finish true s = .ok r) :
+    ∃ s', (if s.fwdata.isEmpty then Except.ok s else emit s) = .ok s' ∧
+      (lookupS s'.comments "Bf3Update".toList).isSome = true := by
+  unfold finish at h
+  generalize (if s.fwdata.isEmpty then Except.ok s else emit s) = g at h ⊢
+  cases g with
+  | error e => cases h
+  | ok s' =>
+    refine ⟨s', rfl, ?_⟩
+    change (if (true && (lookupS s'.comments "Bf3Update".toList).isNone) = true then Except.error Err.unsupportedLegacy
+      else _) = _ at h
+    cases hl : lookupS s'.comments "Bf3Update".toList with
+    | none => rw [hl] at h; cases h
+    | some v => rfl
+
+/-- an empty section is an error, not an empty component -/
+theorem emit_empty_rejected (s : IState) (h : s.fwdata = []) : emit s = .error .formatBf3 := by
+  unfold emit; simp [h]
 
 /-- **BF2-compatible sections**: every line exactly once, in file order -/
 theorem compat_concat (lines : List Line) : convertPayload lines Gen.BF3FMT_BF2COMPATIBLE = .ok (lines.flatMap (·.raw)) := by
